@@ -33,13 +33,25 @@ CHECKS['C04'] = ('model_checking',
   'First version: two-step edit programs on one object; aliasing, control flow and call '
   'histories are added in later revisions.', '§4 C04')
 CHECKS['C05'] = ('model_checking',
-  'bounded enumeration of DSL programs with one lifted-transformed child vs the plain program',
-  'DSL module programs with one child class wrapped in nn.jit / nn.remat / nn.checkpoint are '
-  'run on the real implementation and compared with the untransformed program: output and '
-  'variable tree (modulo the auto-generated name of the transformed class).',
-  'First version: init only, three bodies; filters, histories and control-flow transforms are '
-  'added in later revisions.', '§4 C05')
-
+  'bounded-exhaustive enumeration of DSL programs with one lifted-transformed child vs the plain '
+  'program + explicit-state search over call histories of one jitted class',
+  'Every body up to the tier size x wrapper (auto / explicit name, called once or twice, pre / '
+  'post statements) x transform (nn.jit, nn.remat, nn.checkpoint, identity nn.map_variables with '
+  'three mapped filters, the decorator forms, nn.cond x both predicates, nn.switch x 3 indices, '
+  'nn.while_loop x trip counts 0-3) is initialised and applied under a filter alphabet on the '
+  'real implementation and compared with the same program with the transform removed (plain '
+  'child, Python if / while): outputs, updated collections, init tree up to the transformed '
+  'class\' auto name, error outcomes. Lifting filters (variables= / rngs=) must equal plain when '
+  'everything the body touches is lifted and raise otherwise. The rng clause checks remat keys == '
+  'plain keys, jit keys deterministic and pairwise distinct, and outer draws unchanged. Call '
+  'histories (all sequences up to the tier length over 12 call kinds changing static attributes, '
+  'variable structure, mutability and rng presence) on one jitted class object are explored as a '
+  'state space; every call must equal the plain program, so a stale trace is a wrong result.',
+  'Programs are those of the DSL; value clauses for non-remat transforms use bodies without rng '
+  'inside the transformed part; cond/switch/while children are created before the control flow '
+  'when initializing (documented restriction); carried while_loop collections are passed as '
+  'mutable. One design-level finding (map_variables init pass runs the body twice) is listed in '
+  'known_findings.json.', '§4 C05')
 CHECKS['C14'] = ('exploration',
   'bounded-exhaustive enumeration of filter terms (small-scope, complete by name symmetry) '
   'against set semantics',
@@ -96,6 +108,67 @@ CHECKS['C11'] = ('fault_enumeration',
   'directory are observed only at the os-level operations Orbax issues; local file system only. '
   'Two crash windows of the Orbax back-end under overwrite=True are genuine and listed in '
   'known_findings.json.', '§4 C11')
+
+CHECKS['C02'] = ('exploration',
+  'bounded-exhaustive enumeration of DSL module programs (legal and illegal namings) vs a '
+  'pure-Python reference interpreter and differential oracles',
+  'Every DSL module program up to the tier size (compact classes, setup class, auto and explicit '
+  'names, children called twice, one instance shared by two parents) plus every flat program over '
+  'a colliding naming alphabet (so all name clashes and their legal twins occur) runs through the '
+  'real init / apply / bind / lazy_init: the init tree is compared with the reference '
+  'interpreter; apply on init\'s variables must reproduce the output, draw the same keys and '
+  'never create, drop or rename a variable; every parameter path is deleted / reshaped and the '
+  'whole collection dropped under three mutable filters with an rng present (must raise the '
+  'lookup / shape error, never re-initialise); every child is applied standalone on its subtree '
+  'and via bind().child.unbind(); lazy_init, eval_shape(init) and jit(init) must give the same '
+  'tree, shapes and dtypes (f32 and bf16 inputs).',
+  'Programs are those of the DSL; where a shared instance stores its variables is compared '
+  'between init / apply, not fixed; lazy_init is allowed to raise LazyInitError for programs '
+  'that store data-dependent values (documented).', '§4 C02')
+CHECKS['C06'] = ('exploration',
+  'bounded-exhaustive enumeration of loop bodies x collection roles x axes x lengths vs a Python '
+  'loop over the plain body on harness-sliced variables',
+  'Five loop bodies (param, counter, accumulator, read-only state, rng) x every assignment of '
+  'their collections to {axis 0, axis 1, broadcast, carry} (scan) or {axis 0, axis 1, None} (vmap) '
+  'x length 1-3 x reverse x unroll x xs form {array on axis 0 / 1 / -1, dict with mixed axes, '
+  'broadcast} x out axis {0, 1, -1} x check_constancy_invariants x split_rngs, init and apply, plus '
+  'remat_scan with lengths (2,), (2,2), (1,3). The oracle is a Python loop over the plain body '
+  'module applied to variables the harness slices along the declared axes (distinct values per '
+  'iteration), passes whole (broadcast) or threads (carry); final carry, stacked outputs and every '
+  'collection must be bitwise equal; per-iteration keys must be pairwise distinct for split '
+  'streams and identical for unsplit ones.',
+  'Integer-valued float32 data; carried collections are passed as mutable; writes to a broadcast '
+  'collection inside the loop and broadcast initialisation under '
+  'check_constancy_invariants=False are documented as unsupported and not asserted.', '§4 C06')
+CHECKS['C07'] = ('exploration',
+  'bounded-exhaustive configuration enumeration with the full Jacobian taken on the one-hot '
+  'cotangent / tangent basis vs jax.vjp / jax.jvp / jax.grad of the pure apply function',
+  'Inner modules over four feature flags (second parameter, constants collection, counter, nested '
+  'child) x vjp_variables / variable_tangents x has_aux x 1-2 primals x array / dict primals for '
+  'nn.vjp, nn.jvp, nn.grad, nn.value_and_grad and nn.custom_vjp. Because VJP and JVP are linear, '
+  'feeding every one-hot cotangent / tangent decides the whole Jacobian: primal outputs, every '
+  'cotangent block for selected collections and inputs, absence of unselected collections from '
+  'the cotangent tree, single publication of forward-pass counter updates, and for custom_vjp '
+  'bitwise forward value, user rule under jax.grad, rule not invoked without differentiation.',
+  'Tolerance 1e-6 relative (same primitives, accumulation order may differ); small vector shapes; '
+  'data from a fixed pool rotated by VERIF_SEED.', '§4 C07')
+CHECKS['C10'] = ('exploration',
+  'factored bounded-exhaustive enumeration (leaf dtype x shape x layout x class x chunk threshold; '
+  'all container trees <= height 2 / spine height 3; all single-point state-dict edits) on the '
+  'real flax.serialization with an element-wise bytes / structural-form oracle',
+  'Exhaustive exploration of three factored finite spaces on the real implementation. (a) Every '
+  'registered numeric dtype x 7 shapes (rank 0-3, empty) x every memory layout of the rank x '
+  'numpy / jax / numpy-scalar x every chunk threshold of the tier, plus 27 Python leaves. (b) Every '
+  'container tree of height <= 2 over dict / FrozenDict / list / tuple / namedtuple / '
+  'struct.dataclass / TrainState with <= 2 children (plus a height-3 spine family in thorough). '
+  '(c) Every single-point edit of the saved state at every container position, through both '
+  'from_state_dict and from_bytes. Each case checks treedef, container classes, leaf dtype / shape '
+  '/ row-major bytes (expected bytes computed element by element), independence of '
+  'MAX_CHUNK_SIZE, non-modification of inputs, and ValueError naming the path for the named '
+  'mismatch classes (surplus dict keys ignored, values restored by key).',
+  'Height-3 is a spine sub-family; arrays <= 12 elements with thresholds scaled down via the '
+  'MAX_CHUNK_SIZE module global; leaf class (jax -> numpy) is not compared; non-native-endian '
+  'dtypes are outside the alphabet.', '§4 C10')
 
 NOT_APPLICABLE = {}
 
